@@ -432,7 +432,10 @@ def parsePelFromID(path: str, config: Config) -> None:
         for file in files:
             if pelID not in file:
                 continue
-            parseAndPrintPELFile(os.path.join(root, file), config, False)
+            # Keep looking if this file is not a PEL, e.g. a <file>.<EID>.json
+            # written by --json next to the PEL it was created from.
+            if not parseAndPrintPELFile(os.path.join(root, file), config, False):
+                continue
             foundID = True
             break
         # Only process top level directory
